@@ -64,7 +64,18 @@ _public_ void *m_mem_unref(void *src) {
         mem_header_t *header = get_header(src);
         if (--header->refs == 0) {
             if (header->dtor) {
-                header->dtor(src); // destroy private data
+                /*
+                 * The destructor may take and drop references on the block while it
+                 * works on it: it still runs just once, and the block is released
+                 * when it is done (unless it kept a reference for itself).
+                 */
+                m_ref_dtor dtor = header->dtor;
+                header->dtor = NULL;
+                header->refs = 1;
+                dtor(src); // destroy private data
+                if (--header->refs != 0) {
+                    return NULL;
+                }
             }
             memhook._free(header);
         }
